@@ -78,6 +78,12 @@ with open(V + "/seeded/README.md", "w") as f:
             "cast pointers on little-endian (C14-R4H4C; the big-endian half of C06-R4H3B is caught by the --big-endian re-run), tokens\n"
             "longer than 14 bytes under the accent-insensitive rules (C08-R4H2C), and changes that make a harness itself blow up\n"
             "(C12-R4H1A: a 544-byte copy loop inside the normalisation fast path -> out of memory -> inconclusive).\n"
+            "Round 5 (ids with R5; uninformed agents again, three changes each for C01 C03 C05 C06 C10 C12 C15 C18, told only what\n"
+            "earlier rounds had tried): 23 of 24 caught by the quick check once the instance lists were completed (C18 now includes the\n"
+            "wipe harnesses, C12 the storage harnesses and the unsigned-char build, C10 k4_birthday, C03 the word tables and the decoder\n"
+            "skeletons, C05 the search harness). C05-R5B -- the linear scan of the two unsorted lists unrolled four times and never\n"
+            "looking at the last four entries -- is missed by the quick tier (it follows the linear scan only up to entry 256) and caught\n"
+            "by the thorough tier (t2_search over the whole list).\n"
             "\nBehaviour-preserving refactorings (12 patches from three further sub-agents, `seeded/benign/`) are the opposite test:\n"
             "every relevant quick check must stay quiet on them (results in `seeded/benign/README.md`).\n")
 print("%d seeded, %d caught" % (len(rows), sum(1 for r in rows if r[2])))
